@@ -63,7 +63,8 @@ class Prog:
         self.tags = set(tags)
 
     def text(self):
-        pre = [f"cfg plan {self.plan}", f"cfg heap {self.heap}", f"cfg workers {self.workers}", "cfg watchdog 60",
+        pre = [f"cfg plan {self.plan}", f"cfg heap {self.heap}", f"cfg workers {self.workers}",
+               f"cfg watchdog {os.environ.get('SCHED_WATCHDOG', '60')}",
                "cfg events 1"]
         if self.yseed:
             pre.append(f"cfg yield {self.yseed}")
@@ -202,10 +203,48 @@ def key_of(pid, tag):
     return (pid, (tag >> 8) & 0xffffffff)
 
 
+SPIN = (K["MonPark"], K["LastParkedEnter"], K["MonLastParked"], K["MonNotify"], K["MonUnpark"])
+
+
+def compress_spins(evs, keep=2):
+    """While a worker with designated work has not been scheduled by the OS, the last parked worker spins:
+    park (all parked) -> on_last_parked finds designated work -> WakeAll -> unpark -> poll nothing -> park ...
+    Every such cycle (5 events of one thread, nothing else in between) returns the model to the same state.
+    On a loaded machine this produces 10^5.. events; runs of more than 2*keep identical cycles are cut to the
+    first and last `keep` cycles (the number of dropped cycles is reported)."""
+    out, i, n, dropped = [], 0, len(evs), 0
+
+    def is_cycle(j):
+        if j + 5 > n:
+            return False
+        c = evs[j:j + 5]
+        t = c[0][1]
+        return (tuple(e[2] for e in c) == SPIN and all(e[1] == t for e in c) and c[0][4] == 1 and c[2][4] == 2
+                and c[3][3] == 1)
+    while i < n:
+        if is_cycle(i):
+            j = i
+            while is_cycle(j) and evs[j][1] == evs[i][1]:
+                j += 5
+            cycles = (j - i) // 5
+            if cycles > 2 * keep:
+                out.extend(evs[i:i + 5 * keep])
+                out.extend(evs[j - 5 * keep:j])
+                dropped += cycles - 2 * keep
+            else:
+                out.extend(evs[i:j])
+            i = j
+        else:
+            out.append(evs[i])
+            i += 1
+    return out, dropped
+
+
 def annotate(evs, n):
     """Returns the token list for `schedm ev`.  Adds: notify targets (b of MonNotify(0), bits 8.. of
     MonRequested.b), BatchMove pseudo events, Solid/Unsolid pseudo events."""
     evs = [e for e in evs if e[2] in KEEP]
+    evs, _dropped = compress_spins(evs)
     N = len(evs)
     # per-thread neighbours
     prev_of, next_of, last = [None] * N, [None] * N, {}
